@@ -17,6 +17,8 @@ import (
 
 func runProbe(name string) {
 	switch name {
+	case "restart":
+		probeRestart()
 	case "reward-total-overflow":
 		// C05: Σ FileSize·provers wraps int64 → negative share → negative coin amount panic in BeginBlock
 		c := NewChain(4, []string{"ujkl"}, nil)
@@ -120,4 +122,25 @@ func runProbe(name string) {
 	default:
 		fmt.Println("unknown probe", name)
 	}
+}
+
+func probeRestart() {
+	c := NewChain(4, []string{"ujkl", "utest"}, nil)
+	c.Begin(6 * time.Second)
+	for i := 0; i < 5; i++ {
+		c.NextBlock(6 * time.Second)
+	}
+	fmt.Println("height before", c.H, "supply", c.A.BankKeeper.GetSupply(c.Ctx(), "ujkl"))
+	if e, p := c.Restart(6 * time.Second); e != "" || p != nil {
+		fmt.Println("RESTART FAILED:", e, p)
+		return
+	}
+	fmt.Println("restarted at", c.H, "supply", c.A.BankKeeper.GetSupply(c.Ctx(), "ujkl"))
+	for i := 0; i < 5; i++ {
+		if p := c.NextBlock(6 * time.Second); p != nil {
+			fmt.Println("panic after restart:", p)
+			return
+		}
+	}
+	fmt.Println("height after", c.H, "supply", c.A.BankKeeper.GetSupply(c.Ctx(), "ujkl"))
 }
